@@ -19,7 +19,7 @@ From Coq Require Import String.
 From CKC Require Import Base.Prelude Spec.Layout Spec.Poker.
 From CKC Require Import Gen.Enums Gen.HandRankMaps.
 From CKC Require Import Model.Five Model.HandRank.
-From CKC Require Import Proofs.FiveFacts Proofs.RankedFacts Proofs.C01 Proofs.C06.
+From CKC Require Import Proofs.FiveFacts Proofs.RankedFacts Proofs.C01 Proofs.C06 Proofs.C06Cards.
 Open Scope N_scope.
 
 (* Invalid for both exactly when the value is 0 or above 7462 *)
